@@ -1657,7 +1657,11 @@ class Interp:
                     tot += d
                 else:
                     sym.append(str(d))
-            dim = tot if not sym else "+".join(sym + ([str(tot)] if tot else []))
+            if len(sym) == 1:
+                dim = dim_add(sym[0], tot)     # "n-1" + 1 is "n"
+            else:
+                dim = tot if not sym else "+".join(
+                    sym + ([str(tot)] if tot else []))
             sh = list(items[0].shape)
             sh[ax] = dim
             return AArr(tuple(sh))
